@@ -23,7 +23,7 @@ RULE = ('each seeded scenario (every table representation incl. -Cf/-CF, REJECT 
         'distinct = (scenario, fault) pair, non-trivial = the fault fired (a read reached the damaged region)')
 TIERS = {
     'quick': {'scenarios': 20, 'plans': 12, 'trunc_exhaustive': 4096, 'trunc_samples': 300, 'wall_cap': 600},
-    'thorough': {'scenarios': 300, 'plans': 40, 'trunc_exhaustive': 16384, 'trunc_samples': 2000, 'wall_cap': 3300},
+    'thorough': {'scenarios': 1200, 'plans': 40, 'trunc_exhaustive': 16384, 'trunc_samples': 2000, 'wall_cap': 3300},
 }
 COMPONENTS = dict(sb.COMPONENTS)
 ASSUMPTIONS = ['bit flips outside the magic number are not promised to be detected by a non-verify load and are not injected there',
